@@ -25,7 +25,21 @@ def catalog(kind):
     raise ValueError(kind)
 
 
-SHAPES = ['t_m', 'm_t', 't_t_m', 't_m_t', 'sub_m', 't_m_m', 'implicit', 'on_map', 'left_join', 't_m_version']
+SHAPES = ['t_m', 'm_t', 't_t_m', 't_m_t', 'sub_m', 't_m_m', 'implicit', 'on_map', 'left_join', 't_m_version',
+          # a second table whose ON clause carries more than the key equality (allowed pushdown: top-level conjuncts of an inner / left join's ON)
+          't_t_m_on_and', 't_t_m_on_or', 't_t_m_on_not', 't_t_m_on_constfirst', 't_t_m_left_on_and', 't_t_m_right_on_and', 't_t_m_on_paren_or',
+          # a table joined after the model: no ON, non-equality ON, ON against a model column
+          't_m_t_noon', 't_m_t_nonequi', 't_m_t_on_model', 't_m_t_left']
+ON_EXTRA = {
+    # shape -> (join keyword, ON text with {t}, conjuncts of ON that may be pushed into the fetch of t2)
+    't_t_m_on_and': ('JOIN', '{t}.id = t2.id AND t2.b = 3', {('eq', 'b', 3)}),
+    't_t_m_on_or': ('JOIN', '{t}.id = t2.id OR t2.b = 3', set()),
+    't_t_m_on_not': ('JOIN', '{t}.id = t2.id AND NOT t2.b = 3', set()),
+    't_t_m_on_constfirst': ('JOIN', '{t}.id = t2.id AND 3 > t2.b', {('lt', 'b', 3)}),
+    't_t_m_left_on_and': ('LEFT JOIN', '{t}.id = t2.id AND t2.b = 3', {('eq', 'b', 3)}),
+    't_t_m_right_on_and': ('RIGHT JOIN', '{t}.id = t2.id AND t2.b = 3', set()),
+    't_t_m_on_paren_or': ('JOIN', '{t}.id = t2.id AND (t2.b = 3 OR t2.y = 1)', set()),
+}
 WHERES = [
     # label, sql with {t} {m} placeholders, list of conjunct descriptors: (owner, context, kind, col, value)
     ('none', '', []),
@@ -47,6 +61,13 @@ WHERES = [
     ('not_both', 'NOT ({t}.a = 1 AND {m}.p1 = 5)', [('t', 'not', 'eq', 'a', 1), ('m', 'not', 'eq', 'p1', 5)]),
     ('t_isnull', '{t}.a IS NULL', [('t', 'top', 'is', 'a', None)]),
     ('t2_eq', 't2.b = 1', [('t2', 'top', 'eq', 'b', 1)]),
+    ('const_first_gt_t', '5 > {t}.a', [('t', 'top', 'lt', 'a', 5)]),
+    ('const_first_le_t', '10 <= {t}.x', [('t', 'top', 'ge', 'x', 10)]),
+    ('const_first_both', '5 > {t}.a AND 5 = {m}.p1', [('t', 'top', 'lt', 'a', 5), ('m', 'top', 'eq', 'p1', 5)]),
+    ('t_ne', '{t}.a <> 1', [('t', 'top', 'ne', 'a', 1)]),
+    ('t_isnot_true', '{t}.a IS NOT TRUE', [('t', 'top', 'isnot', 'a', True)]),
+    ('t_or_t', '{t}.a = 1 OR {t}.x = 2', [('t', 'or', 'eq', 'a', 1), ('t', 'or', 'eq', 'x', 2)]),
+    ('t2_const_first', '1 < t2.b', [('t2', 'top', 'gt', 'b', 1)]),
 ]
 ALIASES = [('none', None, None), ('as', 'ta', 'ma'), ('upper', 'TA', 'MA')]
 USINGS = [('none', '', None, None), ('one', 'USING x = 1', {'x': 1}, None), ('mixed_case', "USING X = 1, Yy = 'a'", {'x': 1, 'yy': 'a'}, None),
@@ -83,7 +104,7 @@ def build(a):
     mref = mname + (f' AS {ma}' if ma else '')
     if ul == 'alias_prefixed' and not ma:
         return None
-    if any(c[0] == 't2' for c in conj) and shape not in ('t_t_m', 't_m_t'):
+    if any(c[0] == 't2' for c in conj) and shape not in ('t_t_m', 't_m_t') and shape not in ON_EXTRA and not shape.startswith('t_m_t'):
         return None
     models = [dict(name='pred', ref=m, project=project, version=version, feed=['t1'], on_map={})]
     tables = [dict(name='t1', integration='int1', ref=t)]
@@ -98,6 +119,16 @@ def build(a):
     elif shape == 't_m_t':
         frm = f'{tref} JOIN {mref} JOIN int2.t2 ON {t}.id = t2.id'
         tables.append(dict(name='t2', integration='int2', ref='t2'))
+    elif shape in ('t_m_t_noon', 't_m_t_nonequi', 't_m_t_on_model', 't_m_t_left'):
+        tail = {'t_m_t_noon': 'JOIN int2.t2', 't_m_t_nonequi': f'JOIN int2.t2 ON {t}.a < t2.b', 't_m_t_on_model': f'JOIN int2.t2 ON {m}.p1 = t2.b',
+                't_m_t_left': f'LEFT JOIN int2.t2 ON {t}.id = t2.id'}[shape]
+        frm = f'{tref} JOIN {mref} {tail}'
+        tables.append(dict(name='t2', integration='int2', ref='t2'))
+    elif shape in ON_EXTRA:
+        jk, on, allowed_on = ON_EXTRA[shape]
+        frm = f'{tref} {jk} int2.t2 ON {on.replace("{t}", t)} JOIN {mref}'
+        tables.append(dict(name='t2', integration='int2', ref='t2', allowed_on=allowed_on))
+        models[0]['feed'] = ['t1', 't2']
     elif shape == 'sub_m':
         if ta:
             return None
